@@ -37,7 +37,7 @@ impl CaseDriver for C02 {
     }
     fn describe(&self, t: Tier) -> Describe {
         Describe {
-            rule: format!("{} Each value is written by the real writer; the bytes are judged by the independent decoder.", space_rule(t)),
+            rule: format!("{} Each value is written by the real writer (write to a buffer, and save to a path that already holds a longer file: the file must end up holding the same bytes); the bytes are judged by the independent decoder.", space_rule(t)),
             assumptions: vec![
                 "only libraries for which write succeeds are judged (the statement's quantifier)".into(),
                 "record-level rules judged: header length even, >= 4 and equal to the bytes present; (record type, data type, payload size) as in the specification's table; element record order per the BNF; ENDLIB last with nothing after it. The number of points of a boundary/path/node XY (spec: >= 4 / >= 2 / >= 1) is not judged: the data model allows any list and the statement does not fix it".into(),
@@ -85,6 +85,45 @@ impl CaseDriver for C02 {
             Ok(Ok(b)) => b,
         };
         let detail = |bytes: &[u8]| json!({"library": render_lib(rl), "written": render_bytes(bytes, 600)});
+        // the other way of producing the bytes: `save` to a path, here one that already holds a longer file
+        // (the same stream followed by 64 more bytes); the file must end up holding exactly the stream
+        {
+            let f = cx.scratch_file("c02.gds");
+            let mut stale = bytes.clone();
+            stale.extend_from_slice(&[0xEE; 64]);
+            if let Err(e) = std::fs::write(&f, &stale) {
+                cx.machinery(format!("C02: cannot write scratch file {f}: {e}"));
+                return;
+            }
+            let saved = guard(|| lib.save(&f).map_err(|e| truncate(&format!("{e:?}"), 200)));
+            let on_disk = std::fs::read(&f).unwrap_or_default();
+            let _ = std::fs::remove_file(&f);
+            cx.stats.evaluations += 1;
+            match saved {
+                Err(p) => {
+                    cx.fail(key, "save-panic", None, || format!("save {}", p.short()), || json!({"library": render_lib(rl)}));
+                    return;
+                }
+                Ok(Err(e)) => {
+                    cx.fail(key, "save-error", None, || format!("write succeeds but save over an existing file fails: {e}"), || json!({"library": render_lib(rl)}));
+                    return;
+                }
+                Ok(Ok(())) => {
+                    if on_disk != bytes {
+                        cx.outcome("saved-file-differs");
+                        cx.fail(
+                            key,
+                            "saved-file-differs",
+                            None,
+                            || format!("save over an existing longer file leaves {} bytes on disk, the stream written by write has {} (first difference at byte {})", on_disk.len(), bytes.len(), on_disk.iter().zip(bytes.iter()).position(|(a, b)| a != b).unwrap_or(on_disk.len().min(bytes.len()))),
+                            || detail(&on_disk),
+                        );
+                        return;
+                    }
+                    cx.tag("saved-over-a-longer-file");
+                }
+            }
+        }
         let dec = match gs::decode(&bytes) {
             Ok(d) => d,
             Err(e) => {
